@@ -123,7 +123,9 @@ def run(trace, nthreads, depth, init_table_present):
     tree = ast.parse(open(mutation.__file__).read())
     fn = next(n for n in tree.body if isinstance(n, ast.FunctionDef) and n.name == "protect_via_deepcopy")
     w = next(n for n in ast.walk(fn) if isinstance(n, ast.With))
-    cname = w.items[0].context_expr.func.id
+    from vf.bmc import find_cm_class
+
+    cname = find_cm_class(tree).name
     node = next(n for n in tree.body if isinstance(n, ast.ClassDef) and n.name == cname)
     CM = getattr(mutation, cname)
     lo, hi = node.lineno, node.end_lineno
@@ -162,8 +164,10 @@ def run(trace, nthreads, depth, init_table_present):
             v += [Nest(d - 1), Gate(), types]
         return v
 
+    flo, fhi = fn.lineno, fn.end_lineno
+
     def tracer(frame, event, arg):
-        if frame.f_code.co_filename == mfile and lo <= frame.f_lineno <= hi + 1:
+        if frame.f_code.co_filename == mfile and (lo <= frame.f_lineno <= hi + 1 or flo <= frame.f_lineno <= fhi):
 
             def local(frame, event, arg):
                 if event == "line":
